@@ -21,7 +21,16 @@ Definition check_qr (c : nat * nat * list (list Z) * list (list Z) * list (list 
 def run(ctx):
     cm.setup_impl_path()
     for b in cm.audit(cm.coq_sources() + [os.path.join(cm.ROOT, 'props', 'C06.v')]): ctx.broken.append('audit: ' + b)
-    cm.prove(ctx, 'C06.v')
+    sys.path.insert(0, os.path.join(cm.ROOT, 'qtrans'))
+    try:
+        import gen_c06
+        txt, _ = gen_c06.generate(cm.REPO)
+        open(os.path.join(ctx.build, 'Gen_C06.v'), 'w').write(txt)
+        ctx.obligations.append(('translate:qsvd.py(qr_qua data flow: wide completion, recomputed upper-triangular R)', True, ''))
+        cm.prove(ctx, 'C06.v', ['Gen_C06.v'])
+    except Exception as e:
+        ctx.obligations.append(('translate', False, repr(e)))
+        ctx.broken.append(f'qtrans cannot translate the data flow of qr_qua any more: {e!r}')
     try:
         import numpy as np, quaternion, utils, importlib
         qsvd = importlib.import_module('decomp.qsvd')
